@@ -1,5 +1,5 @@
 """Per-property check definitions (DESIGN.md section 7). Each entry of REGISTRY is fam(run, replay=None) -> exit code."""
-import os, json, time
+import os, shutil, json, time
 from vlib import *
 
 REGISTRY = {}
@@ -97,7 +97,12 @@ def access_generate(run):
 
 @register('C01', 'C03')
 def access_family(run, replay=None):
-    if replay:
+    if replay and replay.get('context') == 'batch' and replay.get('batch_file') and os.path.exists(replay['batch_file']):
+        bpath = os.path.join(run.dir, 'beh.ndjson')
+        shutil.copyfile(replay['batch_file'], bpath)
+        behs = read_ndjson(bpath)
+        stats = dict(replay=True, batch=True)
+    elif replay:
         behs = [replay['behaviour']]
         bpath = os.path.join(run.dir, 'beh.ndjson')
         with open(bpath, 'w') as f:
@@ -124,12 +129,17 @@ def access_family(run, replay=None):
         v2, _, _ = run.validate('AccessTrace', 'AccessTrace.cfg', t2)
         return any(v[0] == rule for v in v2)
 
+    def confirm_batch():
+        t3 = os.path.join(run.dir, 'batch-trace.ndjson')
+        run.harness('access', ['--beh', bpath, '--trace', t3, '--seed', run.seed, '--tier', run.tier])
+        v3, _, _ = run.validate('AccessTrace', 'AccessTrace.cfg', t3)
+        return v3, read_ndjson(t3)
+
     legit_served = sum(1 for x in lines if x.get('ev') == 'step' and x.get('c', '').startswith('l') and x.get('a') == 'Req'
                        and x.get('class') == 'Served' and x.get('enc'))
     legit_verified = sum(1 for x in lines if x.get('ev') == 'step' and x.get('a') == 'VFinish' and x.get('p') == 'genuine'
                          and x.get('http') == 200 and x.get('err') == 0)
-    if not replay and (legit_verified == 0 or (run.prop == 'C01' and legit_served == 0)):
-        raise ToolTrouble('vacuous run: the legitimate controller was never verified / served (verified=%d served=%d)' % (legit_verified, legit_served))
+    vacuous = not replay and (legit_verified == 0 or (run.prop == 'C01' and legit_served == 0))
     nontrivial = len(set(canon_word(b['steps']) for b in behs if any(s.get('exp') not in ('HttpError', 'Refused', 'BadRequest', 'Any', 'none') for s in b['steps'])))
     cov = mc_summary(run)
     cov.update(stats)
@@ -147,18 +157,21 @@ def access_family(run, replay=None):
     assumptions = ['the reference controller (harness/ref) implements HAP pair-verify and session framing correctly (cross-checked by the honest path agreeing with hc)',
                    'loopback TCP; a request unanswered for 2.5 s counts as not answered',
                    'abstract message classes are concretised by one seeded representative each']
-    return finish(run, 'model_checking', ACCESS_RULES, behs, lines, viols, cov, assumptions, 'access', confirm=confirm)
+    rc = finish(run, 'model_checking', ACCESS_RULES, behs, lines, viols, cov, assumptions, 'access', confirm=confirm, confirm_batch=confirm_batch, batch_file=bpath)
+    if rc == 0 and vacuous:
+        raise ToolTrouble('vacuous run: the legitimate controller was never verified / served (verified=%d served=%d)' % (legit_verified, legit_served))
+    return rc
 
 
 # =====================================================================================================
 # PairSetup family: C02
 # =====================================================================================================
 
-PS_ALL = dict(AVals=["good", "zero", "N", "missing", "replay"], Proofs=["right", "wrong", "missing"], Seals=["this", "other", "zero", "random"],
+PS_ALL = dict(AVals=["good", "zero", "N", "missing", "replay"], Proofs=["right", "wrong", "missing", "nilkey"], Seals=["this", "other", "zero", "random", "nilkey"],
               Bodies=["genuine", "badsig", "mismatch", "badtlv"], Shapes=["ok", "tagflip", "ctflip", "short", "empty"])
 PS_CORE = dict(AVals=["good", "zero", "replay"], Proofs=["right", "wrong"], Seals=["this", "zero", "other"],
                Bodies=["genuine", "badsig"], Shapes=["ok", "tagflip", "short"])
-PS_GUARDS = ["verify_bad_A_resets", "step_checked_before_kex", "signature_checked", "aead_checked"]
+PS_GUARDS = ["bad_A_stops_exchange", "verify_bad_A_resets", "step_checked_before_kex", "signature_checked", "aead_checked"]
 
 
 def ps_cfg(conn, ident, sl, weak=(), tail='', consts=''):
@@ -339,6 +352,7 @@ CORRUPTIONS = {
     'connwrite': [],
     'e2e': [('a refused request recorded as served', _corrupt(lambda x: x.get('ev') == 'step' and x.get('a') in ('Read', 'Write', 'Sub') and x.get('res') == 'refused', lambda x: x.update(res='ok')), 'E2E-Gate'),
             ('a refused verification recorded as accepted', _corrupt(lambda x: x.get('ev') == 'step' and x.get('a') == 'Verify' and x.get('res') == 'refused', lambda x: x.update(res='ok')), 'E2E-Verify'),
+            ('an EVENT on an unverified connection', _corrupt(lambda x: x.get('ev') == 'step' and x.get('a') == 'Read' and x.get('res') == 'refused' and x.get('running'), lambda x: x.update(got=[x['k']])), 'E2E-Leak'),
             ('a delivered EVENT removed', _corrupt(lambda x: x.get('ev') == 'step' and x.get('got'), lambda x: x.update(got=[])), 'E2E-Events'),
             ('discoverable while paired', _corrupt(lambda x: x.get('ev') == 'step' and x.get('running') and x.get('sf') == 0, lambda x: x.update(sf=1)), 'E2E-Sf'),
             ('a pairing lost over a restart', _corrupt(lambda x: x.get('ev') == 'step' and x.get('a') == 'Start' and x.get('paired'), lambda x: x.update(paired=[])), 'E2E-Pairings')],
@@ -369,7 +383,11 @@ def binding_selftest(run, trace_mod, lines, viols, corruptions):
 def generic_family(run, replay, *, hcv, trace_mod, gen, rules, level, assumptions, rule_text, nontrivial, sanity=None, extra_cov=None, fpfun=None, pseudo=(), corruptions=None):
     """Common pipeline: model check + generate (callback) -> harness -> trace validation -> verdict."""
     bpath = os.path.join(run.dir, 'beh.ndjson')
-    if replay:
+    if replay and replay.get('context') == 'batch' and replay.get('batch_file') and os.path.exists(replay['batch_file']):
+        shutil.copyfile(replay['batch_file'], bpath)       # a violation that shows only in the company of the other cases
+        behs = read_ndjson(bpath)
+        stats = dict(replay=True, batch=True)
+    elif replay:
         behs = [replay['behaviour']]
         with open(bpath, 'w') as f:
             f.write(json.dumps(behs[0]) + '\n')
@@ -401,8 +419,12 @@ def generic_family(run, replay, *, hcv, trace_mod, gen, rules, level, assumption
                 return True
         return False
 
-    if sanity and not replay:
-        sanity(lines, behs)
+    def confirm_batch():
+        t3 = os.path.join(run.dir, 'batch-trace.ndjson')
+        run.harness(hcv, ['--beh', bpath, '--trace', t3, '--seed', run.seed, '--tier', run.tier])
+        v3, _, _ = run.validate(trace_mod, trace_mod + '.cfg', t3)
+        return v3, read_ndjson(t3)
+
     selftest = binding_selftest(run, trace_mod, lines, viols, corruptions or CORRUPTIONS.get(hcv, [])) if (not replay and run.tier == 'thorough') else None
     cov = mc_summary(run)
     cov.update(stats)
@@ -418,7 +440,10 @@ def generic_family(run, replay, *, hcv, trace_mod, gen, rules, level, assumption
         cov.update(extra_cov(lines, behs))
     if selftest is not None:
         cov['binding_selftest'] = selftest
-    return finish(run, level, rules, behs, lines, viols, cov, assumptions, hcv, confirm=confirm, fpfun=fpfun)
+    rc = finish(run, level, rules, behs, lines, viols, cov, assumptions, hcv, confirm=confirm, fpfun=fpfun, confirm_batch=confirm_batch, batch_file=bpath)
+    if rc == 0 and sanity and not replay:
+        sanity(lines, behs)        # vacuity guards speak only when nothing was found: a broken tree may well make a run "vacuous"
+    return rc
 
 
 def notify_gen(run):
@@ -1277,7 +1302,7 @@ def catalog_family(run, replay=None):
 # End-to-end composition (Accessory.tla): an extra stage of C01, C03, C10 and C20
 # =====================================================================================================
 
-E2E_RULES = {'E2E-Verify': 'C03', 'E2E-Gate': 'C01', 'E2E-Events': 'C10', 'E2E-Sf': 'C20', 'E2E-Pairings': 'C20', 'E2E-Pair': 'C04'}
+E2E_RULES = {'E2E-Verify': 'C03', 'E2E-Gate': 'C01', 'E2E-Leak': 'C01', 'E2E-Events': 'C10', 'E2E-Sf': 'C20', 'E2E-Pairings': 'C20', 'E2E-Pair': 'C04'}
 E2E_GUARDS = ["verify_needs_stored_key", "authenticate_checks_verified", "skip_originator", "sf_updated_on_unpair", "sf_from_pairings", "sf_updated_on_pair"]
 E2E_CODE_WEAK = ["sessions_of_removed_pairing_closed"]
 
@@ -1312,7 +1337,7 @@ def e2e_family(run, replay=None):
         st = [x for x in lines if x.get('ev') == 'step' and not x.get('skipped')]
         need = dict(pairings=sum(1 for x in st if x['a'] == 'Pair' and x['res'] == 'ok'), verifications=sum(1 for x in st if x['a'] == 'Verify' and x['res'] == 'ok'),
                     refused_verifications=sum(1 for x in st if x['a'] == 'Verify' and x['res'] == 'refused'), events=sum(len(x.get('got', [])) for x in st),
-                    removals=sum(1 for x in st if x['a'] == 'Remove' and x['res'] == 'ok'), restarts=sum(1 for x in st if x['a'] == 'Start'),
+                    removals=sum(1 for x in st if x['a'] == 'Remove' and x['res'] == 'ok'), additions=sum(1 for x in st if x['a'] == 'Add' and x['res'] == 'ok'), restarts=sum(1 for x in st if x['a'] == 'Start'),
                     refused_requests=sum(1 for x in st if x['a'] in ('Read', 'Write', 'Sub') and x['res'] == 'refused'))
         for k, v in need.items():
             if v == 0:
@@ -1322,7 +1347,7 @@ def e2e_family(run, replay=None):
         st = [x for x in lines if x.get('ev') == 'step' and not x.get('skipped')]
         return dict(e2e_pairings_via_pair_setup=sum(1 for x in st if x['a'] == 'Pair' and x['res'] == 'ok'), e2e_verifications=sum(1 for x in st if x['a'] == 'Verify' and x['res'] == 'ok'),
                     e2e_refused_verifications=sum(1 for x in st if x['a'] == 'Verify' and x['res'] == 'refused'), e2e_events=sum(len(x.get('got', [])) for x in st),
-                    e2e_removals=sum(1 for x in st if x['a'] == 'Remove' and x['res'] == 'ok'), e2e_restarts=sum(1 for x in st if x['a'] == 'Start'),
+                    e2e_removals=sum(1 for x in st if x['a'] == 'Remove' and x['res'] == 'ok'), e2e_additions=sum(1 for x in st if x['a'] == 'Add' and x['res'] == 'ok'), e2e_restarts=sum(1 for x in st if x['a'] == 'Start'),
                     e2e_refused_requests=sum(1 for x in st if x['res'] == 'refused' and x['a'] not in ('Pair', 'Verify')), e2e_steps_skipped=sum(1 for x in lines if x.get('skipped')))
     return generic_family(run, replay, hcv='e2e', trace_mod='AccessoryTrace', gen=e2e_gen, rules=E2E_RULES, level='model_checking',
                           assumptions=['end-to-end histories: real pair-setup with the setup code, real pair-verify, encrypted sessions, /pairings removal, real ip transport stop and restart on one storage directory; two controllers, up to three connections',
@@ -1344,7 +1369,15 @@ def with_e2e(base):
         ev1 = json.load(open(epath))
         run.mc = []
         notes, run.notes = run.notes, []
-        rc2 = e2e_family(run)
+        try:
+            rc2 = e2e_family(run)
+        except ToolTrouble as e:
+            if rc1 != 1:
+                raise
+            log('  end-to-end stage inconclusive on a tree that already violates the property: %s' % str(e)[:200])
+            with open(epath, 'w') as f:       # the first stage's evidence stands
+                json.dump(ev1, f, indent=1)
+            return rc1
         ev2 = json.load(open(epath))
         c1, c2 = ev1['coverage'], ev2['coverage']
         c1['end_to_end_part'] = {k: v for k, v in c2.items() if k not in ('samples',)}
